@@ -101,11 +101,19 @@ def main():
 
         def replay(_m, rec=rec):
             rec["model"] = _m
-            sn = S.snippet(P, rec, names, nsp)
+            sns = S.snippet_alternatives(P, rec, names, nsp)
             rec["model"] = None
-            if sn is None:
+            if not sns:
                 return {"reproduced": False, "detail": "no snippet"}
-            return lambda: native_sandbox_probe(*sn)
+
+            def native_part():
+                last = None
+                for sn in sns:
+                    last = native_sandbox_probe(*sn)
+                    if last["reproduced"]:
+                        return last
+                return last
+            return native_part
         C.prove_deferred(f"{label}:no-sink", r.pc, not sinks, site=f"{S.job_family(label)}/sink/{sinks[0] if sinks else ''}",
                          what=f"with enforce_sandbox set the step reaches {sinks[:3]}", replay=replay, soft=r.tainted,
                          model_desc=lambda m, rec=rec: {"step": rec["job"]})
